@@ -50,7 +50,7 @@ def run(ctx):
     lockm = need(where, calling(g, attr="lock_write", recv="self.master_branch"), "master_branch.lock_write()")
     cmp_tests = [n for n in g.nodes if n.kind == "test" and isinstance(n.ast, ast.Compare) and isinstance(n.ast.ops[0], ast.NotEq)]
     srcs = {norm(s.targets[0]): norm(s.value) for s in walk_own(fn) if isinstance(s, ast.Assign) and len(s.targets) == 1}
-    good = [n for n in cmp_tests if {srcs.get(norm(n.ast.left)), srcs.get(norm(n.ast.comparators[0]))} == {"self.master_branch.last_revision()", "self.branch.last_revision()"}]
+    good = [n for n in cmp_tests if {srcs.get(norm(n.ast.left), norm(n.ast.left)), srcs.get(norm(n.ast.comparators[0]), norm(n.ast.comparators[0]))} == {"self.master_branch.last_revision()", "self.branch.last_revision()"}]
     ctx.check("R2-tips-compared", where, len(good) == 1, "the local and master tips are compared", message="the bound-branch check no longer compares branch.last_revision() with master_branch.last_revision()")
     if good:
         t = good[0]
